@@ -94,6 +94,16 @@ pub fn candidates(seed: u64) -> Vec<Value> {
             out.push(json!({"case": "dtree_cnf", "cnf": cnf, "order": part}));
         }
     }
+    // cutsets of more than 64 variables: one or two clauses over 66-72 variables next to short ones
+    for k in 0..4u64 {
+        let w = 66 + 2 * k as i64;
+        let wide: Vec<i64> = (1..=w).map(|v| if v % 2 == 0 { v } else { -v }).collect();
+        let mut cnf = vec![wide.clone(), vec![1, -(w + 1)], vec![w + 1, w + 2]];
+        if k % 2 == 1 { cnf.push(wide.iter().map(|l| -l).collect()); }
+        let mx = (w + 2) as u64;
+        let order: Vec<u64> = if k < 2 { (0..mx).collect() } else { (0..mx).rev().collect() };
+        out.push(json!({"case": "dtree_cnf", "cnf": cnf, "order": order}));
+    }
     // labels beyond 64 (variable sets are bit sets)
     for _ in 0..30 {
         let pool: Vec<i64> = vec![1, 2, 3, 33, 63, 64, 65, 66, 70, 129, 130];
